@@ -117,6 +117,9 @@ def make_read(rng, k, ads, C, side=1):
                 "".join(a["seq"] for a in present if a["opt"] == "a" and a.get("restr") == "anchor")[:7]
         seq = left + body.upper() + right
         ads = []
+    if C.get("_embed") and side == 1 and rng.random() < 0.7:
+        seq = body.upper() + C["_embed"] + "".join(rng.choice("ACGT") for _ in range(rng.choice((0, 2, 5))))
+        ads = []
     if C.get("_nfamily") and side == 1 and rng.random() < 0.75:
         nf = C["_nfamily"]
         v = list(nf["base"])
@@ -194,7 +197,9 @@ def make_read(rng, k, ads, C, side=1):
 
 
 SCENARIOS = {
-    "C03": [dict(paired=True, revcomp=True, action="mask"), dict(paired=True, revcomp=True, action="lowercase"),
+    "C03": [dict(indexed_n=True, indexed_equal=True, action="mask", times=1), dict(indexed_n=True, indexed_equal=True, action="lowercase", times=1),
+            dict(indexed_n=True, action="retain", times=1), dict(indexed_n=True, action="mask", times=2),
+            dict(paired=True, revcomp=True, action="mask"), dict(paired=True, revcomp=True, action="lowercase"),
             dict(linked=True, action="lowercase"), dict(linked=True, action="retain"), dict(action="crop", error_rate=0.2),
             dict(paired=True, pairads=True, action="crop"), dict(paired=True, pairads=True, action="mask"),
             dict(times=3, action="mask"), dict(times=2, action="lowercase"), dict(revcomp=True, action="retain"),
@@ -202,7 +207,8 @@ SCENARIOS = {
     "C17": [dict(linked=True, times=2, n_ads=3), dict(linked=True, times=3, n_ads=2), dict(minlen="8", maxlen="18"),
             dict(revcomp=True, times=2), dict(paired=True), dict(linked=True, revcomp=True), dict(duntrim=True), dict(maxn=(0, 1, "0")),
             dict(indexed_n=True, times=1), dict(indexed_n=True, times=2)],
-    "C09": [dict(tie_order=True, index=True, times=1, action="trim", error_rate=0.1, overlap=3), dict(tie_order=True, index=True, times=1, action="mask"),
+    "C09": [dict(score_ties=True, times=1, error_rate=0.2, overlap=3), dict(score_ties=True, times=2, error_rate=0.2, overlap=3, action="mask"),
+            dict(tie_order=True, index=True, times=1, action="trim", error_rate=0.1, overlap=3), dict(tie_order=True, index=True, times=1, action="mask"),
             dict(tie_order=True, times=2),
             dict(linked=True, times=2, n_ads=3), dict(n_ads=4, times=3), dict(n_ads=3, action="mask", times=2),
             dict(n_ads=3, action="lowercase", times=3), dict(linked=True, action="retain"), dict(paired=True, times=2, n_ads=2),
@@ -212,7 +218,9 @@ SCENARIOS = {
             dict(revcomp=True, paired=True), dict(revcomp=True, times=2), dict(revcomp=True, error_rate=0.7, overlap=1),
             dict(revcomp=True, times=2, n_ads=1, repeat=True), dict(revcomp=True, times=3, n_ads=2, repeat=True),
             dict(revcomp=True, action="mask"), dict(revcomp=True, paired=True, action="lowercase"), dict(revcomp=True, same_family=True, n_ads=2)],
-    "C05": [dict(paired=True, pairads=True), dict(paired=True, pairads=True, same_r1=True, demux="normal", n_ads=2),
+    "C05": [dict(paired=True, pairads=True), dict(paired=True, pairads=True, dup_both=True, n_ads=3, rename="{id} a={r1.adapter_name} b={r2.adapter_name}"),
+            dict(paired=True, pairads=True, dup_both=True, n_ads=3, demux="normal"),
+            dict(paired=True, pairads=True, same_r1=True, demux="normal", n_ads=2),
             dict(paired=True, pairads=True, same_r1=True, n_ads=3, rename="{id} a={r1.adapter_name} b={r2.adapter_name}"),
             dict(paired=True, pairads=True, same_r1=True, n_ads=2, rename="{id} a={r1.adapter_name} b={r2.adapter_name}", info=True), dict(paired=True, interleaved=True, only_r2=True, untrimout=True), dict(paired=True, interleaved=True, untrimout=True),
             dict(paired=True, interleaved=True, minlen="8", tooshortout=True), dict(paired=True, interleaved=True, only_r1=True, untrimout=True), dict(paired=True, pairfilter="both", minlen="8:"), dict(paired=True, pairfilter="first", maxlen=":14"),
@@ -221,7 +229,8 @@ SCENARIOS = {
     "C11": [dict(maxee="1", maxaer="0.05"), dict(paired=True, pairfilter="both", duntrim=True), dict(paired=True, only_r2=True, duntrim=True),
             dict(action="lowercase", maxn=(1, 1, "1")), dict(minlen="8", maxlen="14", maxn=(0, 1, "0"), casava=True),
             dict(paired=True, pairfilter="both", dtrim=True), dict(untrimout=True, minlen="5"), dict(paired=True, pairfilter="first", untrimout=True)],
-    "C15": [dict(demux="normal", dupname=True, n_ads=3), dict(demux="normal", dupname=True, n_ads=2, paired=True),
+    "C15": [dict(demux="combi", paired=True, revcomp=True), dict(demux="normal", paired=True, revcomp=True), dict(demux="normal", revcomp=True, times=2),
+            dict(demux="normal", dupname=True, n_ads=3), dict(demux="normal", dupname=True, n_ads=2, paired=True),
             dict(demux="normal", times=2, n_ads=3), dict(demux="combi", paired=True, times=2), dict(demux="normal", casava=True),
             dict(demux="normal", paired=True, untrimout=True), dict(demux="normal", duntrim=True), dict(demux="combi", paired=True, duntrim=True),
             dict(demux="normal", paired=True, casava=True, minlen="6")],
@@ -229,7 +238,10 @@ SCENARIOS = {
             dict(polya=True, cores=2, buffer_size=250, n_reads=18), dict(polya=True, paired=True, cores=3, buffer_size=400, n_reads=16),
             dict(revcomp=True, cores=2, buffer_size=300, n_reads=16), dict(paired=True, info=True), dict(times=2, n_ads=3), dict(times=3, paired=True), dict(demux="combi", paired=True, duntrim=True),
             dict(maxaer="0.05"), dict(polya=True), dict(paired=True, polya=True, q="10")],
-    "C10": [dict(cut1=[4, -3], rename="{id} cp={cut_prefix} cs={cut_suffix}", short_reads=True),
+    "C10": [dict(paired=True, cut1=[3], cut2=[], q=None, Q=None, nextseq=None, pairads=True, len2=8, polya=False),
+            dict(paired=True, cut1=[2], cut2=[], q=None, Q=None, nextseq=None, revcomp=True, len2=9, polya=False),
+            dict(paired=True, cut2=[2], cut1=[], q=None, Q=None, nextseq=None, revcomp=True, len1=9, polya=False),
+            dict(cut1=[4, -3], rename="{id} cp={cut_prefix} cs={cut_suffix}", short_reads=True),
             dict(cut1=[-3, 4], rename="{id} cp={cut_prefix} cs={cut_suffix} {comment}", short_reads=True),
             dict(paired=True, cut1=[2, -2], cut2=[-3, 2], rename="{id} {r1.cut_prefix}.{r1.cut_suffix}|{r2.cut_prefix}.{r2.cut_suffix}", short_reads=True),
             dict(lengthtag="length=", rename="{header} x", cut1=[3]), dict(strip=[".x"], rename="{header}|{id}", trimn=True),
@@ -263,7 +275,7 @@ def _random_config(rng, focus, S):
     heavy = f in ("C03", "C10")
     # pre-adapter modifications
     if p(0.5 if heavy or f == "C17" else 0.15):
-        C["cut1"] = rng.choice(([2], [-3], [3, -2], [-2, 4], [1], [30]))
+        C["cut1"] = rng.choice(([2], [-3], [3, -2], [-2, 4], [1], [30], [0], [0, -3]))
     if C["paired"] and p(0.4 if heavy else 0.15):
         C["cut2"] = rng.choice(([1], [-2], [2, -1]))
     if fastq and p(0.3 if heavy or f == "C17" else 0.08):
@@ -305,7 +317,23 @@ def _random_config(rng, focus, S):
         # two or three anchored adapters of one kind (an index is built); the reads differ only in where N stands for A
         opt = rng.choice(("g", "a"))
         seqs = rng.sample(ADAPTERS, rng.choice((2, 3)))
-        ads = [dict(opt=opt, seq=q[:rng.choice((8, 10, 12))], restr="anchor", name=None) for q in seqs]
+        L = rng.choice((8, 10, 12))
+        ads = [dict(opt=opt, seq=q[:(L if S.get("indexed_equal") else rng.choice((8, 10, 12)))], restr="anchor", name=None) for q in seqs]
+    if S.get("score_ties"):
+        # three adapters whose occurrences in the same stretch have equal score and different error counts,
+        # in an order in which the error counts are not monotone: a 12-mer with 2 mismatches (12 - 4), a perfect
+        # 8-mer, a 10-mer with 1 mismatch (10 - 2)
+        stretch = "".join(rng.choice("ACGT") for _ in range(12))
+        def sub(t, positions):
+            t = list(t)
+            for i in positions:
+                t[i] = rng.choice([c for c in "ACGT" if c != t[i]])
+            return "".join(t)
+        opt = rng.choice(("a", "a", "b"))
+        trio = [sub(stretch, rng.sample(range(2, 10), 2)), stretch[4:12], sub(stretch[2:12], [rng.randrange(2, 8)])]
+        order = rng.choice(([0, 1, 2], [2, 1, 0], [0, 2, 1], [2, 0, 1]))
+        ads = [dict(opt=opt, seq=trio[i], restr=None, name=None) for i in order]
+        S = dict(S, _embed=stretch)
     if S.get("same_family"):
         # adapters that are near-identical: equal scores, different error counts, ties
         base = pick(rng, ADAPTERS)
@@ -326,6 +354,10 @@ def _random_config(rng, focus, S):
             C["ads2"] = [fix_linked_render(a) for a in make_adapters(rng, f, max(1, n2), 2, False, named, front_only=True)]
         if S.get("pairads"):
             C["ads2"] = [fix_linked_render(a) for a in make_adapters(rng, f, len(C["ads1"]), 2, False, named, back_only=p(0.6))]
+            if S.get("dup_both") and len(C["ads1"]) >= 3:
+                # a dual-index design: R1 adapter 1 has two partners, R2 adapter 2 has two partners
+                C["ads1"][1] = dict(C["ads1"][0], name=C["ads1"][1].get("name"))
+                C["ads2"][2] = dict(C["ads2"][1], name=C["ads2"][2].get("name"))
             if S.get("same_r1") and len(C["ads1"]) >= 2:
                 C["ads1"][1] = dict(C["ads1"][0], name=(C["ads1"][1].get("name")))      # the same R1 adapter at two ranks
         if (S.get("only_r2") or (p(0.15) and not S)) and C["ads2"] and demux != "combi":
@@ -363,15 +395,23 @@ def _random_config(rng, focus, S):
             C["_repeat"] = True
         if S.get("dimers"):
             C["_dimers"] = True
+        if S.get("_embed"):
+            C["_embed"] = S["_embed"]
         if S.get("indexed_n"):
             C["index"] = True
             C["error_rate"] = rng.choice((0.1, 0.2, 0.25))
             a = pick(rng, C["ads1"])
             t = list(a["seq"])
-            pos = rng.sample(range(len(t)), rng.choice((2, 3)))
+            with_a = [i for i, c in enumerate(t) if c == "A"]
+            if len(with_a) >= 2 and rng.random() < 0.7:
+                pos = rng.sample(with_a, 2)           # the A variant is an exact copy, every N costs one error
+            else:
+                pos = rng.sample(range(len(t)), rng.choice((2, 3)))
             for i in pos:
                 t[i] = "A"
             C["_nfamily"] = dict(opt=a["opt"], base="".join(t), pos=pos)
+            if S.get("indexed_equal"):
+                C["noindels"] = True          # equal lengths without indels: the index's single-length path
     if S.get("short_reads"):
         C["_short"] = True
     # post-adapter modifications
